@@ -31,7 +31,9 @@
  * (BST order).  Stored heights are the exact heights; PRE then demands balance in {-1,0,1}.  This is every AVL tree of
  * height <= H, a superset of the trees reachable by insertion.
  */
-static struct treenode nd[NN];
+/* one object per node (an array of nodes with symbolic indices is far more expensive for CBMC) */
+static struct treenode s1, s2, s3, s4, s5, s6, s7, s8, s9, s10, s11, s12, s13, s14, s15;
+static struct treenode *const nd[16] = {0, &s1, &s2, &s3, &s4, &s5, &s6, &s7, &s8, &s9, &s10, &s11, &s12, &s13, &s14, &s15};
 static void *t_root;
 
 /* what one in-order walk over a tree observes (ghost state of the contract) */
@@ -52,6 +54,7 @@ u64 g_key;                /* == key                                             
 u64 g_q;                  /* arbitrary key: "for all keys" without a quantifier        */
 struct treenode *g_p;     /* arbitrary node of the pre-state tree                      */
 u64 g_pkey;               /* its key before the call                                   */
+bool g_ret_old;           /* the returned node is one of the pre-state nodes           */
 
 static int
 walk0(struct treenode *n, bool hl, u64 lo, bool hh, u64 hi)
@@ -118,16 +121,16 @@ build(unsigned present, unsigned newbits, const u64 *key)
 		bool p0 = 2 * i < NN && (present >> 2 * i & 1);
 		bool p1 = 2 * i + 1 < NN && (present >> (2 * i + 1) & 1);
 
-		nd[i].key = key[i];
-		nd[i].child[0] = p0 ? &nd[2 * i] : 0;
-		nd[i].child[1] = p1 ? &nd[2 * i + 1] : 0;
+		nd[i]->key = key[i];
+		nd[i]->child[0] = p0 ? nd[2 * i] : 0;
+		nd[i]->child[1] = p1 ? nd[2 * i + 1] : 0;
 		hh[i] = p ? MAX(hh[2 * i], hh[2 * i + 1]) + 1 : 0;
-		nd[i].height = hh[i];
-		nd[i].new = newbits >> i & 1;     /* stale flags of earlier insertions: arbitrary */
+		nd[i]->height = hh[i];
+		nd[i]->new = newbits >> i & 1;     /* stale flags of earlier insertions: arbitrary */
 		if (i >= 2 && p && !(present >> i / 2 & 1))
 			closed = false;
 	}
-	t_root = present >> 1 & 1 ? &nd[1] : 0;
+	t_root = present >> 1 & 1 ? nd[1] : 0;
 	return closed;
 }
 
@@ -136,7 +139,12 @@ static void *
 insert_observed(void **root, unsigned long long key, size_t sz)
 {
 	void *r = treeinsert(root, key, sz);
+	unsigned i;
+
 	observe(*root, &g_post);
+	g_ret_old = false;
+	for (i = 1; i < NN; ++i)
+		g_ret_old = g_ret_old || r == (void *)nd[i];
 	return r;
 }
 
@@ -165,7 +173,7 @@ insert_observed(void **root, unsigned long long key, size_t sz)
 	X(HRET == g_post.at_k) \
 	X(((struct treenode *)HRET)->new == !g_pre.has_k) \
 	X(IMP(g_pre.has_k, HRET == g_pre.at_k)) \
-	X(IMP(!g_pre.has_k, !((struct treenode *)HRET >= &nd[0] && (struct treenode *)HRET < &nd[NN]))) \
+	X(IMP(!g_pre.has_k, !g_ret_old)) \
 	CANARY(X, !(g_pre.cnt == 4 && !g_pre.has_k && g_post.height == 4))
 
 void
@@ -185,7 +193,10 @@ harness(void)
 	IN(size_t, sz);
 	ING(u64, g_q);
 
-	k[1] = in_k1; k[2] = in_k2; k[3] = in_k3; k[4] = in_k4; k[5] = in_k5; k[6] = in_k6; k[7] = in_k7;
+	k[1] = in_k1; k[2] = in_k2; k[3] = in_k3;
+#if H >= 3
+	k[4] = in_k4; k[5] = in_k5; k[6] = in_k6; k[7] = in_k7;
+#endif
 #if H >= 4
 	k[8] = in_k8; k[9] = in_k9; k[10] = in_k10; k[11] = in_k11; k[12] = in_k12; k[13] = in_k13; k[14] = in_k14; k[15] = in_k15;
 #endif
@@ -194,7 +205,7 @@ harness(void)
 	__CPROVER_assume(in_p < NN && (in_p == 0 || (in_present >> in_p & 1)));
 	__CPROVER_assume(build(in_present, in_new, k));
 	g_key = key;
-	g_p = in_p ? &nd[in_p] : 0;
+	g_p = in_p ? nd[in_p] : 0;
 	g_pkey = k[in_p];
 	observe(t_root, &g_pre);
 	HCALLR(void *, PRE, POST, insert_observed(root, key, sz));
